@@ -5,7 +5,8 @@ import numpy as np
 DTYPES = ["float16", "float32", "float64", "int8", "int16", "int32", "int64", "uint8", "uint16",
           "uint32", "uint64", "bool", "complex64", "complex128"]
 # less common but legal element types: extended precision, non-native byte order
-EXOTIC_DTYPES = [np.dtype("longdouble").name, np.dtype("clongdouble").name, ">f4", ">f8", ">i2", ">u4", ">c8"]
+EXOTIC_DTYPES = [np.dtype("longdouble").name, np.dtype("clongdouble").name, ">f4", ">f8", ">i2", ">u4", ">c8", "q", "Q", "l", "L", "p", "b", "B",
+                 "h", "e", "d", "g", "F", "D"]        # C type codes: 'q' / 'Q' are long long (same layout as int64, another scalar class)
 
 NAME_POOL = ["a", "b", "lif", "input", "output", "type", "nodes", "edges", "metadata", "x y", "ünï", "日本",
              "é", "a.b", "n\n1", "Ω", "version", "node", "0", "..", "tab\t", "q" * 300, "UP", "w_in"]
@@ -14,7 +15,7 @@ BAD_NAMES = ["a/b", "/a", "a/", "a\x00b"]
 # words that are parameter / attribute / field names inside the library, "->" (used in messages), keywords
 ODD_NAMES = ["\ufefflif", "lif\ufeff", "007", "7", "01", "1", "\u0663", "group", "name", "value", "self", "item", "filename", "graph",
              "node_dict", "k", "v", "key", "data", "dtype", "shape", "input_type", "output_type", "inputs", "outputs", "a->b", "b->c",
-             "b->c->d", "->", "None", "True", "class", "__class__", "__dict__", "from_dict", "to_dict", "%s", "{}", "{0}", "\\"]
+             "b->c->d", "->", "None", "True", "#1", "#a", "#refs#", "{}", "conv{0}", "x{", "}", "{name}", "class", "__class__", "__dict__", "from_dict", "to_dict", "%s", "{}", "{0}", "\\"]
 ELEMENTWISE = {"Scale": ["scale"], "Threshold": ["threshold"], "Delay": ["delay"], "I": ["r"],
                "IF": ["r", "v_threshold"], "LI": ["tau", "r", "v_leak"],
                "LIF": ["tau", "r", "v_leak", "v_threshold"],
@@ -74,7 +75,7 @@ def rand_meta(rng, depth):
         out = {}
         for _ in range(rng.randint(0, 3)):
             k = rng.choice(["k", "note", "ünï", "α β", "n", "arr", "f", "sub", "type", "q" * 40, "x.y", "rate%2Fhz", "50%2F50", "%", "%25", "2024-03-01",
-                            "group", "name", "value", "self", "key", "data", "dtype", "\ufeffk", "k\ufeff", "a->b", "input_type",
+                            "group", "name", "value", "self", "key", "data", "dtype", "\ufeffk", "k\ufeff", "a->b", "#tag", "..", "{0}", "input_type",
                             "output_type", "weight", "shape", "nodes", "edges"])
             r = rng.random()
             if r < 0.2:
@@ -85,7 +86,7 @@ def rand_meta(rng, depth):
                                  "1_000", "[1, 2]", "{}", "%2F", "a%2Fb", "\\n", "b'x'",
                                  "\ufeffexported", "\ufeff", "mid\ufeffdle", "Linear", "Scale", "NIRGraph", "LIF"])
             elif r < 0.35:
-                out[k] = rng.choice([0, 1, -7, 2 ** 40, 2 ** 63 - 1])
+                out[k] = rng.choice([0, 1, -7, 2 ** 40, 2 ** 63 - 1, 2 ** 63, 2 ** 64 - 1, -2 ** 63])
             elif r < 0.5:
                 out[k] = rng.choice(SPECIAL_F)
             elif r < 0.6:
@@ -144,19 +145,21 @@ def rand_leaf(rng):
         v = {"nd": np.array(sh, dtype=np.int64), "list": list(sh), "tuple": tuple(sh), "nd32": np.array(sh, dtype=np.int32)}[form]
         if not sh and form in ("nd", "nd32"):
             v = np.array([], dtype=np.int64)
+        if rng.random() < 0.04:
+            v = None      # an undefined port shape: the file form cannot carry it (write must reject the graph, not lose the member)
         args = {"input_type" if kind == "Input" else "output_type": v}
     elif kind == "Conv1d":
         k = rng.choice([1, 2, 3]); n = rng.randint(k + 1, 9)
         args = {"input_shape": rng.choice([n, np.int64(n)]), "weight": rand_array(rng, [rng.randint(1, 2), rng.randint(1, 2), k]),
                 "stride": hp(rng, [rng.choice([1, 2])]), "padding": rng.choice([0, 1, (1,), "same", "valid", np.array([2])]),
-                "dilation": hp(rng, [1]), "groups": 1, "bias": rand_array(rng, [2])}
+                "dilation": hp(rng, [1]), "groups": 1, "bias": rand_array(rng, rng.choice([[2], [2], [2, 1], [2, 1, 1], [1, 2]]))}
     elif kind == "Conv2d":
         k1, k2 = rng.choice([1, 2, 3]), rng.choice([1, 2, 3])
         n = (rng.randint(4, 9), rng.randint(4, 9))
         args = {"input_shape": rng.choice([n, list(n), np.array(n)]), "weight": rand_array(rng, [2, rng.randint(1, 2), k1, k2]),
                 "stride": hp(rng, [rng.choice([1, 2])] * 2 if rng.random() < 0.5 else [1, 2]),
                 "padding": rng.choice([0, 1, (1, 0), [0, 1], "same", "valid", np.array([1, 1])]),
-                "dilation": hp(rng, [1, 1]), "groups": 1, "bias": rand_array(rng, [2])}
+                "dilation": hp(rng, [1, 1]), "groups": 1, "bias": rand_array(rng, rng.choice([[2], [2], [2, 1], [2, 1, 1], [1, 2]]))}
     elif kind in ("SumPool2d", "AvgPool2d"):
         args = {"kernel_size": hp(rng, [2, rng.choice([2, 3])]), "stride": hp(rng, [2, 2]), "padding": hp(rng, [0, rng.choice([0, 1])])}
         if rng.random() < 0.5:
